@@ -133,11 +133,13 @@ def unpack_header(b):
             "type": b[6], "reserved": b[7]}
 
 
-def fragment(frm, to, fid, typ, msg):
-    """frames (bytes) a TMRh20-compatible sender emits for one message"""
+def fragment(frm, to, fid, typ, msg, reserved=0):
+    """frames (bytes) a TMRh20-compatible sender emits for one message (`reserved`: what the
+    caller's header holds in that byte - it travels as it is in a single frame and is replaced by
+    the fragment counter / the original type in a fragmented message)"""
     n = len(msg)
     if n <= MAX_FRAG:
-        return [pack_header(frm, to, fid, typ, 0) + bytes(msg)]
+        return [pack_header(frm, to, fid, typ, reserved) + bytes(msg)]
     total = (n + MAX_FRAG - 1) // MAX_FRAG
     out = []
     for i in range(total):
